@@ -160,6 +160,21 @@ fn pseudoprime(rng: &mut Rng, iters: u64) {
                 fail("pseudoprime", format!("pseudoprime({c}) = true for a strong pseudoprime to the first 12 prime bases"));
             }
         }
+        // F22: a Carmichael number congruent to 1 modulo 2^66 (the 2-adic valuation of p - 1 exceeds one word), and
+        // composites 1 + 2^e m with e > 64
+        let c = Uint::from_str("6811853920808879945355227022358586849018191648008149239627762840085987329").unwrap();
+        if yamaquasi::pseudoprime(c) {
+            fail("pseudoprime", format!("pseudoprime({c}) = true for the Carmichael number (6k+1)(12k+1)(18k+1), k = 173868180030786323151601, congruent to 1 modulo 2^66"));
+        }
+        for e in [65u32, 66, 70, 128, 130] {
+            for m in [3u64, 5, 9, 15, 21, 1155] {
+                // (1 + 2^e)(1 + 2^e m) is congruent to 1 modulo 2^e
+                let c = ((Uint::ONE << e) + Uint::ONE) * ((Uint::from(m) << e) + Uint::ONE);
+                if yamaquasi::pseudoprime(c) {
+                    fail("pseudoprime", format!("pseudoprime({c}) = true for the composite (1 + 2^{e})(1 + {m} 2^{e})"));
+                }
+            }
+        }
         let mut found = 0;
         let mut k = 1u64 << 21;
         while found < 6 {
@@ -1825,6 +1840,13 @@ fn arithfn(rng: &mut Rng, iters: u64) {
                     if (xe * xf) % *p != xef { fail("arithfn", format!("pow_mod({x}, e, {p}) * pow_mod(x, f, p) != pow_mod(x, e + f, p) for e = {e}, f = {f}")); }
                 }
             }
+        }
+    }
+    // F23: 0 and 1 are their own roots; the function used to recurse for ever
+    for n in [0u64, 1] {
+        match with_deadline(3000, move || (perfect_power(n), perfect_power(Uint::from(n)))) {
+            None => fail("arithfn", format!("perfect_power({n}) does not return")),
+            Some((a, b)) => if a.is_some() || b.is_some() { fail("arithfn", format!("perfect_power({n}) = {a:?} / {b:?}, expected None")); },
         }
     }
     // perfect_power: n = b^e with b not a perfect power; the exponent found is the part of e made of the primes 2..19
